@@ -260,7 +260,7 @@ func lxJudge(c *Ctx, j *Job, res *proto.Result) {
 }
 
 func checkC04(c *Ctx) {
-	c.Rep.Rule = "LuaLex.tla computes the LSP position of every occurrence of an identifier that follows up to MaxPrefix fragments on its line (string literals with escapes, BMP and astral characters, line continuation; long brackets incl. multi-line; long comments incl. multi-line and non-ASCII; tabs), for three line-ending styles and eleven kinds of entity (plain, unused, attributed and second-in-list locals, local and global functions, globals, parameters, numeric and generic loop variables); TLC enumerates all layouts; for each the real server is asked definition, references, highlight, rename at every occurrence, the outline, the workspace symbols and the diagnostics, and every range must lie in the document, have start <= end and, for a named entity, cover exactly the identifier at the position TLC computed; distinct = distinct layouts"
+	c.Rep.Rule = "LuaLex.tla computes the LSP position of every occurrence of an identifier that follows up to MaxPrefix fragments on its line (string literals with escapes, BMP and astral characters, line continuation; long brackets incl. multi-line; long comments incl. multi-line and non-ASCII; tabs), for three line-ending styles and eleven kinds of entity (plain, unused, attributed and second-in-list locals, local and global functions, globals, parameters, numeric and generic loop variables); TLC enumerates all layouts; for each the real server is asked definition, references, highlight, rename at every occurrence, the outline, the workspace symbols and the diagnostics, and every range must lie in the document, have start <= end and, for a named entity, cover exactly the identifier at the position TLC computed; distinct = distinct layouts. Second family: Modules.tla workspaces (tables, member functions and fields, aliases, require/return over two files exhaustively to the item bound and three files simulated): definition, references, highlight and rename are asked at every table variable and member name; every returned range must start and end exactly at an identifier of its document, references/highlights/rename edits must be spelled like the identifier asked about, rename edits must not repeat and must include the position asked at"
 	c.Rep.Assumptions = []string{
 		"the fragment texts are a table in the harness; at run time every reference position is checked against the harness's own LSP slicing of the rendered text (a disagreement aborts the run as a tooling fault)",
 		"outline ranges are only required to be well-formed and inside the document here (containment of the identifier is C19's subject)",
@@ -277,14 +277,24 @@ func checkC04(c *Ctx) {
 			c.Rep.Fatal(err.Error())
 			return
 		}
+		p := c.NewPool(1)
+		if strings.Contains(string(raw), `"fam":"modules"`) {
+			jb := modBuild(c.Seed)(1, raw)
+			jb.Raw = raw
+			p.RunSlice([][]*proto.Case{{jb.PC}}, func(_ *proto.Case, r *proto.Result) { modJudgeRanges(c, jb, r) })
+			return
+		}
 		jb := lxBuild(1, raw)
 		jb.Raw = raw
-		p := c.NewPool(1)
 		p.RunSlice([][]*proto.Case{{jb.PC}}, func(_ *proto.Case, r *proto.Result) { lxJudge(c, jb, r) })
 		return
 	}
 	p := c.NewPool(0)
 	if !c.streamRun("layouts", tlc.Run{Module: "LuaLex", Workers: 4, Timeout: 30 * time.Minute, Cfg: cfg}, p, 8, lxBuild, func(j *Job, r *proto.Result) { lxJudge(c, j, r) }) {
+		return
+	}
+	// second family: ranges of answers about table variables and member names in Modules.tla workspaces
+	if !modulesRuns(c, p, modBuild(c.Seed), func(j *Job, r *proto.Result) { modJudgeRanges(c, j, r) }) {
 		return
 	}
 	c.Rep.Exhaustive = true
